@@ -342,7 +342,9 @@ private theorem proj_scope (objs keep : List Nat) (body : Prog) (hnd : objs.Nodu
   rw [proj_exit _ _ _ hnd, (body_slice objs body hnd hw s o ho).1]
   simp [ho]
 
-/-- **retain_restores** (any body, any nesting depth inside it): after the scope, on every object of
+/-- **retain_restores** (any body, any nesting depth inside it; `exit` is the SAME transition whether the
+with-block ends normally or is left through an exception -- `StateRetainer.__exit__` ignores its arguments and
+lets the exception propagate -- so the statement covers exceptional exits): after the scope, on every object of
 the scope, a parameter that is in the keep-set (and belongs to the object's class) has the value it
 had at the end of the body; every other parameter has its entry value. -/
 theorem retain_restores (objs keep : List Nat) (body : Prog) (hnd : objs.Nodup) (hw : WF body)
